@@ -12,6 +12,15 @@
 //! | `E16`  | `u128`               | 16   | 16    | yes  | no        |
 //! | `E32`  | `[u64; 4]`           | 32   | 8     | yes  | no        |
 //! | `EN`   | `u64`, Clone only    | 8    | 8     | no   | no        |
+//! | `E72` .. `E4160` | `[u64; 9 / 33 / 65 / 130 / 520]` | 72 .. 4160 | 8 | yes | no |
+//! | `EN520` | `[u64; 65]`, Clone only | 520 | 8    | no   | no        |
+//! | `ED1048` | `([u64; 130], Box<u64>)` | 1048 | 8  | no   | yes       |
+//!
+//! The big domains make the *matrix* cross 64 B .. 1 KiB .. one page .. 64 KiB for every size (`element-domains`
+//! asserts it). Their id is stored in the first and the last word, the words between are a function of it, and an
+//! element whose words do not fit together reads as an id no generated element has. The state of a program is
+//! boxed and every operation runs in a never-inlined frame, so a case needs < 1 MiB of stack even in the 4160-byte
+//! domain (measured: 768 KiB overflow, 1 MiB pass) and fits the main thread of replays and fuzz runs.
 //!
 //! Every element denotes a value of the ring Z/2^64 (truncated for `E2`): `+` and `*` are the wrapping ring
 //! operations, so `Zero` / `One` are lawful and `trace()` does not depend on the order or association of the
@@ -188,6 +197,49 @@ el!(copy E16, "u128 (16 B, align 16, Copy)", |k| ((!k as u128) << 64) | k as u12
 el!(copy E32, "[u64; 4] (32 B, Copy)", |k| [k, !k, k.rotate_left(7), 42], |s| s[0]);
 el!(owned EN, "u64 newtype (8 B, Clone only, no drop glue)", |k| k, |s| *s);
 
+// --- big elements: the MATRIX crosses 1 KiB / one page / 64 KiB. The id sits in the first and in the last word,
+// the words in between are a function of it; an element that was copied only in part reads as a poisoned id.
+fn canon<const W: usize>(k: u64) -> [u64; W] {
+    let mut a = [0u64; W];
+    for (i, w) in a.iter_mut().enumerate() {
+        *w = k.rotate_left((i % 63) as u32) ^ i as u64;
+    }
+    a[W - 1] = k;
+    a
+}
+fn id_of<const W: usize>(a: &[u64; W]) -> u64 {
+    if *a == canon::<W>(a[0]) {
+        a[0]
+    } else {
+        // torn element: an id no generated element has (the model never contains it)
+        mix(a[0] ^ a[W - 1].rotate_left(32) ^ 0xBAD0_BAD0_BAD0_BAD0) | 1 << 63
+    }
+}
+#[derive(Clone, Copy)]
+pub struct E72([u64; 9]);
+#[derive(Clone, Copy)]
+pub struct E264([u64; 33]);
+#[derive(Clone, Copy)]
+pub struct E520([u64; 65]);
+#[derive(Clone, Copy)]
+pub struct E1040([u64; 130]);
+#[derive(Clone, Copy)]
+pub struct E4160([u64; 520]);
+/// Clone only, no drop glue, 520 bytes.
+#[derive(Clone)]
+pub struct EN520([u64; 65]);
+/// Drop glue, 1048 bytes.
+#[derive(Clone)]
+pub struct ED1048(([u64; 130], Box<u64>));
+
+el!(copy E72, "[u64; 9] (72 B, Copy; Mat4 > 1 KiB)", |k| canon(k), |s| id_of(s));
+el!(copy E264, "[u64; 33] (264 B, Copy; Mat2 > 1 KiB, Mat4 > 4 KiB)", |k| canon(k), |s| id_of(s));
+el!(copy E520, "[u64; 65] (520 B, Copy; Mat3 > 4 KiB)", |k| canon(k), |s| id_of(s));
+el!(copy E1040, "[u64; 130] (1040 B, Copy; Mat2 > 4 KiB)", |k| canon(k), |s| id_of(s));
+el!(copy E4160, "[u64; 520] (4160 B, Copy; Mat4 > 64 KiB)", |k| canon(k), |s| id_of(s));
+el!(owned EN520, "[u64; 65] newtype (520 B, Clone only, no drop glue)", |k| canon(k), |s| id_of(s));
+el!(owned ED1048, "([u64; 130], Box<u64>) (1048 B, drop glue)", |k| (canon(k), Box::new(k)), |s| if *s.1 == s.0[0] { id_of(&s.0) } else { mix(*s.1 ^ 0xBAD1) | 1 << 63 });
+
 // ---------------------------------------------------------------------------------------------------------
 // building and reading through the public fields, by cloning
 
@@ -275,6 +327,14 @@ fn ident<E: El, const N: usize>() -> [[E; N]; N] {
 // ---------------------------------------------------------------------------------------------------------
 // the programs
 
+/// Every operation of a step runs in a frame of its own (never inlined), so that the stack a case needs is the
+/// deepest single operation, not the sum over all match arms: the 66 KiB matrices of the biggest domain must fit
+/// the 8 MiB main-thread stack of replays and fuzz runs.
+#[inline(never)]
+fn arm(f: impl FnOnce() -> CaseResult) -> CaseResult {
+    f()
+}
+
 const N_OPS: usize = 25;
 const OP_NAMES: [&str; N_OPS] = [
     "new", "index", "index_mut", "transposed", "transpose", "map", "map2", "layout-swap", "resize", "row_array", "row_arrays", "col_array", "col_arrays",
@@ -287,95 +347,109 @@ macro_rules! step {
         fn $step<E: El>(op: usize, t: &mut Tape, cx: &mut Cx, fr: &mut Fresh, r: &mut rm::$Mat<E>, c: &mut cm::$Mat<E>, m: &mut [[E; $N]; $N]) -> CaseResult {
             const N: usize = $N;
             match op {
-                0 => {
+                0 => arm(|| -> CaseResult {
                     let a: [[E; N]; N] = fr.mat();
                     let (nr, nc) = $new(&a);
                     *r = nr;
                     *c = nc;
                     *m = a;
-                }
-                1 => {
+                    Ok(())
+                })?,
+                1 => arm(|| -> CaseResult {
                     let (i, j) = (t.below(N), t.below(N));
                     check_eq!(cx, r[(i, j)], m[i][j], "{}: row-major m[({},{})]", E::NAME, i, j);
                     check_eq!(cx, c[(i, j)], m[i][j], "{}: col-major m[({},{})]", E::NAME, i, j);
-                }
-                2 => {
+                    Ok(())
+                })?,
+                2 => arm(|| -> CaseResult {
                     let (i, j) = (t.below(N), t.below(N));
                     let x: E = fr.next();
                     r[(i, j)] = x.clone();
                     c[(i, j)] = x.clone();
                     m[i][j] = x;
-                }
-                3 => {
+                    Ok(())
+                })?,
+                3 => arm(|| -> CaseResult {
                     *r = r.clone().transposed();
                     *c = c.clone().transposed();
                     *m = tr(m);
-                }
-                4 => {
+                    Ok(())
+                })?,
+                4 => arm(|| -> CaseResult {
                     r.transpose();
                     c.transpose();
                     *m = tr(m);
-                }
-                5 => {
+                    Ok(())
+                })?,
+                5 => arm(|| -> CaseResult {
                     let tag = fr.raw();
                     *r = r.clone().map(|x| E::f(tag, x));
                     *c = c.clone().map(|x| E::f(tag, x));
                     *m = m.clone().map(|row| row.map(|x| E::f(tag, x)));
-                }
-                6 => {
+                    Ok(())
+                })?,
+                6 => arm(|| -> CaseResult {
                     let b: [[E; N]; N] = fr.mat();
                     let (br, bc) = (<rm::$Mat<E> as OMat<E, N>>::from_arr(&b), <cm::$Mat<E> as OMat<E, N>>::from_arr(&b));
                     *r = r.clone().map2(br, |x, y| E::g(x, y));
                     *c = c.clone().map2(bc, |x, y| E::g(x, y));
                     *m = std::array::from_fn(|i| std::array::from_fn(|j| E::g(m[i][j].clone(), b[i][j].clone())));
-                }
-                7 => {
+                    Ok(())
+                })?,
+                7 => arm(|| -> CaseResult {
                     let nr = rm::$Mat::<E>::from(c.clone());
                     let nc = cm::$Mat::<E>::from(r.clone());
                     *r = nr;
                     *c = nc;
-                }
-                9 => {
+                    Ok(())
+                })?,
+                9 => arm(|| -> CaseResult {
                     let (ar, ac) = (r.clone().into_row_array(), c.clone().into_row_array());
                     check_eq!(cx, ar.to_vec(), flat_rows(m), "{}: row-major into_row_array", E::NAME);
                     check_eq!(cx, ac.to_vec(), flat_rows(m), "{}: col-major into_row_array", E::NAME);
                     *r = rm::$Mat::from_row_array(ac);
                     *c = cm::$Mat::from_row_array(ar);
-                }
-                10 => {
+                    Ok(())
+                })?,
+                10 => arm(|| -> CaseResult {
                     let (ar, ac) = (r.clone().into_row_arrays(), c.clone().into_row_arrays());
                     check_eq!(cx, ar, *m, "{}: row-major into_row_arrays", E::NAME);
                     check_eq!(cx, ac, *m, "{}: col-major into_row_arrays", E::NAME);
                     *r = rm::$Mat::from_row_arrays(ac);
                     *c = cm::$Mat::from_row_arrays(ar);
-                }
-                11 => {
+                    Ok(())
+                })?,
+                11 => arm(|| -> CaseResult {
                     let (ar, ac) = (r.clone().into_col_array(), c.clone().into_col_array());
                     check_eq!(cx, ar.to_vec(), flat_cols(m), "{}: row-major into_col_array", E::NAME);
                     check_eq!(cx, ac.to_vec(), flat_cols(m), "{}: col-major into_col_array", E::NAME);
                     *r = rm::$Mat::from_col_array(ac);
                     *c = cm::$Mat::from_col_array(ar);
-                }
-                12 => {
+                    Ok(())
+                })?,
+                12 => arm(|| -> CaseResult {
                     let (ar, ac) = (r.clone().into_col_arrays(), c.clone().into_col_arrays());
                     check_eq!(cx, ar, tr(m), "{}: row-major into_col_arrays", E::NAME);
                     check_eq!(cx, ac, tr(m), "{}: col-major into_col_arrays", E::NAME);
                     *r = rm::$Mat::from_col_arrays(ac);
                     *c = cm::$Mat::from_col_arrays(ar);
-                }
-                13 => {
+                    Ok(())
+                })?,
+                13 => arm(|| -> CaseResult {
                     let (ar, ac) = (r.clone().into_col_array(), c.clone().into_col_array());
                     *r = rm::$Mat::from_row_array(ar);
                     *c = cm::$Mat::from_row_array(ac);
                     *m = tr(m);
-                }
-                14 => {
+                    Ok(())
+                })?,
+                14 => arm(|| -> CaseResult {
                     let (ar, ac) = (r.clone().into_row_arrays(), c.clone().into_row_arrays());
                     *r = rm::$Mat::from_col_arrays(ar);
                     *c = cm::$Mat::from_col_arrays(ac);
                     *m = tr(m);
-                }
-                15 => {
+                    Ok(())
+                })?,
+                15 => arm(|| -> CaseResult {
                     let d: [E; N] = std::array::from_fn(|i| m[i][i].clone());
                     check_eq!(cx, $a(r.clone().diagonal()), d, "{}: row-major diagonal()", E::NAME);
                     check_eq!(cx, $a(c.clone().diagonal()), d, "{}: col-major diagonal()", E::NAME);
@@ -383,8 +457,9 @@ macro_rules! step {
                     let tr_want = d.iter().fold(E::zero(), |s, x| s + x.clone());
                     check_eq!(cx, r.clone().trace(), tr_want, "{}: row-major trace()", E::NAME);
                     check_eq!(cx, c.clone().trace(), tr_want, "{}: col-major trace()", E::NAME);
-                }
-                16 => {
+                    Ok(())
+                })?,
+                16 => arm(|| -> CaseResult {
                     let id: [[E; N]; N] = ident();
                     let z: [[E; N]; N] = std::array::from_fn(|_| std::array::from_fn(|_| E::zero()));
                     check_eq!(cx, OMat::<E, N>::to_arr(&rm::$Mat::<E>::identity()), id, "{}: row-major identity()", E::NAME);
@@ -396,14 +471,16 @@ macro_rules! step {
                     check_eq!(cx, OMat::<E, N>::to_arr(&<rm::$Mat<E> as Zero>::zero()), z, "{}: row-major Zero::zero()", E::NAME);
                     check_eq!(cx, OMat::<E, N>::to_arr(&<cm::$Mat<E> as Zero>::zero()), z, "{}: col-major Zero::zero()", E::NAME);
                     check_eq!(cx, (Zero::is_zero(&*r), Zero::is_zero(&*c)), (*m == z, *m == z), "{}: Zero::is_zero, both layouts", E::NAME);
-                }
-                17 => {
+                    Ok(())
+                })?,
+                17 => arm(|| -> CaseResult {
                     let tag = fr.raw();
                     *r = r.clone().map_rows(|row| row.map(|x| E::f(tag, x)));
                     *c = c.clone().map_cols(|col| col.map(|x| E::f(tag, x)));
                     *m = m.clone().map(|row| row.map(|x| E::f(tag, x)));
-                }
-                18 => {
+                    Ok(())
+                })?,
+                18 => arm(|| -> CaseResult {
                     check_eq!(cx, r.as_row_slice().to_vec(), flat_rows(m), "{}: as_row_slice lists m[i][j] at i*n+j", E::NAME);
                     check_eq!(cx, c.as_col_slice().to_vec(), flat_cols(m), "{}: as_col_slice lists m[i][j] at j*n+i", E::NAME);
                     let gl = |data: &[E], transpose: bool| -> [[E; N]; N] { std::array::from_fn(|i| std::array::from_fn(|j| if transpose { data[i * N + j].clone() } else { data[j * N + i].clone() })) };
@@ -412,8 +489,9 @@ macro_rules! step {
                     check_eq!(cx, r.as_row_ptr() as usize, r as *const _ as usize, "{}: row slice aliases the value", E::NAME);
                     check_eq!(cx, c.as_col_ptr() as usize, c as *const _ as usize, "{}: col slice aliases the value", E::NAME);
                     check!(cx, r.is_packed() && c.is_packed(), "{}: is_packed", E::NAME);
-                }
-                19 => {
+                    Ok(())
+                })?,
+                19 => arm(|| -> CaseResult {
                     let k = t.below(N * N);
                     let x: E = fr.next();
                     check_eq!(cx, r.as_mut_row_slice().to_vec(), flat_rows(m), "{}: as_mut_row_slice contents", E::NAME);
@@ -421,16 +499,18 @@ macro_rules! step {
                     r.as_mut_row_slice()[k] = x.clone();
                     c.as_mut_col_slice()[(k % N) * N + k / N] = x.clone();
                     m[k / N][k % N] = x;
-                }
-                20 => {
+                    Ok(())
+                })?,
+                20 => arm(|| -> CaseResult {
                     let (k, w, p) = (if t.bool() { 0 } else { 1 + t.below(edge::N_SPECS - 1) }, t.below(24), t.below(24));
                     let (name, tr_) = edge::spec(k, &*r, w, p);
                     let (_, tc) = edge::spec(k, &*c, w, p);
                     let want = edge::display_model_spec(m, k, w, p);
                     check!(cx, tr_ == tc, "{}: Display under {} (w={}, p={}) depends on the layout: row-major {:?}, col-major {:?}", E::NAME, name, w, p, tr_, tc);
                     check_eq!(cx, tr_, want, "{}: row-major Display under {} (w={}, p={})", E::NAME, name, w, p);
-                }
-                21 => {
+                    Ok(())
+                })?,
+                21 => arm(|| -> CaseResult {
                     // both layouts built from the same fresh array by the same constructor
                     let a: [[E; N]; N] = fr.mat();
                     match t.below(4) {
@@ -458,12 +538,14 @@ macro_rules! step {
                             *m = tr(&a);
                         }
                     }
-                }
-                22 => {
+                    Ok(())
+                })?,
+                22 => arm(|| -> CaseResult {
                     let applicable = E::$copy_ops(t, cx, fr, r, c, m)?;
                     cx.label(if applicable { "Copy-only ops: run" } else { "Copy-only ops: not applicable (element is not Copy)" });
-                }
-                23 => {
+                    Ok(())
+                })?,
+                23 => arm(|| -> CaseResult {
                     // Clone and PartialEq of the matrix are per (i,j) too
                     let (r2, c2) = (r.clone(), c.clone());
                     check!(cx, r2 == *r && c2 == *c, "{}: clone() == self", E::NAME);
@@ -473,8 +555,9 @@ macro_rules! step {
                     let mut b = m.clone();
                     b[i][j] = fr.next();
                     check!(cx, <rm::$Mat<E> as OMat<E, N>>::from_arr(&b) != *r && <cm::$Mat<E> as OMat<E, N>>::from_arr(&b) != *c, "{}: matrices differing at ({},{}) compare equal", E::NAME, i, j);
-                }
-                24 => {
+                    Ok(())
+                })?,
+                24 => arm(|| -> CaseResult {
                     let cand = edge::index_candidates(N);
                     let small_out = |t: &mut Tape| N + t.below(N * N - N + 1);
                     let (i, j) = match t.below(4) {
@@ -490,7 +573,8 @@ macro_rules! step {
                     let write = t.bool();
                     let x: E = fr.next();
                     edge::index_pair_case_with(cx, i, j, write, r, c, m, x, |r: &rm::$Mat<E>| OMat::<E, N>::to_arr(r), |c: &cm::$Mat<E>| OMat::<E, N>::to_arr(c))?;
-                }
+                    Ok(())
+                })?,
                 _ => {}
             }
             Ok(())
@@ -533,28 +617,37 @@ step!(step2, copy_impl2, copy_ops2, 2, Mat2, v2, a2, new2);
 step!(step3, copy_impl3, copy_ops3, 3, Mat3, v3, a3, new3);
 step!(step4, copy_impl4, copy_ops4, 4, Mat4, v4, a4, new4);
 
+/// The state lives on the heap: moving it (size changes, steps) moves three pointers, not up to 200 KiB.
 enum St<E> {
-    M2(rm::Mat2<E>, cm::Mat2<E>, [[E; 2]; 2]),
-    M3(rm::Mat3<E>, cm::Mat3<E>, [[E; 3]; 3]),
-    M4(rm::Mat4<E>, cm::Mat4<E>, [[E; 4]; 4]),
+    M2(Box<rm::Mat2<E>>, Box<cm::Mat2<E>>, Box<[[E; 2]; 2]>),
+    M3(Box<rm::Mat3<E>>, Box<cm::Mat3<E>>, Box<[[E; 3]; 3]>),
+    M4(Box<rm::Mat4<E>>, Box<cm::Mat4<E>>, Box<[[E; 4]; 4]>),
 }
 
 fn resize_model<E: El, const A: usize, const B: usize>(m: &[[E; A]; A]) -> [[E; B]; B] {
     std::array::from_fn(|i| std::array::from_fn(|j| if i < A && j < A { m[i][j].clone() } else if i == j { E::one() } else { E::zero() }))
 }
 
+/// Build a value in a frame of its own and move it to the heap.
+#[inline(never)]
+fn bx<T>(f: impl FnOnce() -> T) -> Box<T> {
+    Box::new(f())
+}
+
+#[inline(never)]
 fn resize<E: El>(st: St<E>, target: usize) -> St<E> {
     match (st, target) {
-        (St::M2(r, c, m), 3) => St::M3(rm::Mat3::from(r), cm::Mat3::from(c), resize_model(&m)),
-        (St::M2(r, c, m), 4) => St::M4(rm::Mat4::from(r), cm::Mat4::from(c), resize_model(&m)),
-        (St::M3(r, c, m), 2) => St::M2(rm::Mat2::from(r), cm::Mat2::from(c), resize_model(&m)),
-        (St::M3(r, c, m), 4) => St::M4(rm::Mat4::from(r), cm::Mat4::from(c), resize_model(&m)),
-        (St::M4(r, c, m), 2) => St::M2(rm::Mat2::from(r), cm::Mat2::from(c), resize_model(&m)),
-        (St::M4(r, c, m), 3) => St::M3(rm::Mat3::from(r), cm::Mat3::from(c), resize_model(&m)),
+        (St::M2(r, c, m), 3) => St::M3(bx(|| rm::Mat3::from(*r)), bx(|| cm::Mat3::from(*c)), bx(|| resize_model(&*m))),
+        (St::M2(r, c, m), 4) => St::M4(bx(|| rm::Mat4::from(*r)), bx(|| cm::Mat4::from(*c)), bx(|| resize_model(&*m))),
+        (St::M3(r, c, m), 2) => St::M2(bx(|| rm::Mat2::from(*r)), bx(|| cm::Mat2::from(*c)), bx(|| resize_model(&*m))),
+        (St::M3(r, c, m), 4) => St::M4(bx(|| rm::Mat4::from(*r)), bx(|| cm::Mat4::from(*c)), bx(|| resize_model(&*m))),
+        (St::M4(r, c, m), 2) => St::M2(bx(|| rm::Mat2::from(*r)), bx(|| cm::Mat2::from(*c)), bx(|| resize_model(&*m))),
+        (St::M4(r, c, m), 3) => St::M3(bx(|| rm::Mat3::from(*r)), bx(|| cm::Mat3::from(*c)), bx(|| resize_model(&*m))),
         (s, _) => s,
     }
 }
 
+#[inline(never)]
 fn agree<E: El>(cx: &mut Cx, st: &St<E>, after: &str, step: usize) -> CaseResult {
     macro_rules! both {
         ($N:expr, $r:expr, $c:expr, $m:expr) => {{
@@ -563,51 +656,90 @@ fn agree<E: El>(cx: &mut Cx, st: &St<E>, after: &str, step: usize) -> CaseResult
         }};
     }
     match st {
-        St::M2(r, c, m) => both!(2, r, c, m),
-        St::M3(r, c, m) => both!(3, r, c, m),
-        St::M4(r, c, m) => both!(4, r, c, m),
+        St::M2(r, c, m) => both!(2, &**r, &**c, &**m),
+        St::M3(r, c, m) => both!(3, &**r, &**c, &**m),
+        St::M4(r, c, m) => both!(4, &**r, &**c, &**m),
     }
     Ok(())
 }
 
 fn run<E: El>(t: &mut Tape, cx: &mut Cx) -> CaseResult {
+    run_with::<E>(t, cx, None)
+}
+
+fn one_step<E: El>(op: usize, four_way: bool, tt: &mut Tape, cx: &mut Cx, fr: &mut Fresh, mut st: St<E>) -> Result<St<E>, Fail> {
+    if op == 8 {
+        let target = 2 + if four_way { tt.below(4).min(2) } else { tt.below(3) };
+        return Ok(resize(st, target));
+    }
+    match &mut st {
+        St::M2(r, c, m) => step2(op, tt, cx, fr, &mut **r, &mut **c, &mut **m)?,
+        St::M3(r, c, m) => step3(op, tt, cx, fr, &mut **r, &mut **c, &mut **m)?,
+        St::M4(r, c, m) => step4(op, tt, cx, fr, &mut **r, &mut **c, &mut **m)?,
+    }
+    Ok(st)
+}
+
+#[inline(never)]
+fn init2<E: El>(fr: &mut Fresh) -> St<E> {
+    let a = bx(|| fr.mat::<E, 2>());
+    St::M2(bx(|| new2(&a).0), bx(|| new2(&a).1), a)
+}
+#[inline(never)]
+fn init3<E: El>(fr: &mut Fresh) -> St<E> {
+    let a = bx(|| fr.mat::<E, 3>());
+    St::M3(bx(|| new3(&a).0), bx(|| new3(&a).1), a)
+}
+#[inline(never)]
+fn init4<E: El>(fr: &mut Fresh) -> St<E> {
+    let a = bx(|| fr.mat::<E, 4>());
+    St::M4(bx(|| new4(&a).0), bx(|| new4(&a).1), a)
+}
+
+/// `forced = Some((n0, prefix, op, sub))`: start at size `n0`, run `prefix` generated steps, then `op`, whose
+/// first four-way choice (constructor / Copy-only operation / index regime / resize target) is `sub`.
+fn run_with<E: El>(t: &mut Tape, cx: &mut Cx, forced: Option<(usize, usize, usize, usize)>) -> CaseResult {
+    let mut fbytes = [0u8; 32];
+    if let Some((n0, prefix, op, sub)) = forced {
+        let mut z = mix((n0 * 1000 + prefix * 100 + op) as u64 ^ 0xF0CE);
+        for b in fbytes.iter_mut() {
+            z = mix(z);
+            *b = (z >> 24) as u8;
+        }
+        fbytes[0] = (sub * 64 + 1) as u8;
+    }
+    let mut ftape = Tape::new(&fbytes);
     cx.label(E::NAME);
     let mut fr = Fresh(0);
-    let n0 = 2 + t.below(3);
+    let n0 = match forced {
+        Some((n0, _, _, _)) => n0,
+        None => 2 + t.below(3),
+    };
     let mut st: St<E> = match n0 {
-        2 => {
-            let a = fr.mat::<E, 2>();
-            let (r, c) = new2(&a);
-            St::M2(r, c, a)
-        }
-        3 => {
-            let a = fr.mat::<E, 3>();
-            let (r, c) = new3(&a);
-            St::M3(r, c, a)
-        }
-        _ => {
-            let a = fr.mat::<E, 4>();
-            let (r, c) = new4(&a);
-            St::M4(r, c, a)
-        }
+        2 => init2(&mut fr),
+        3 => init3(&mut fr),
+        _ => init4(&mut fr),
     };
     agree(cx, &st, "new", 0)?;
-    let len = t.below(13);
+    let len = match forced {
+        Some((_, prefix, _, _)) => prefix + 1,
+        None => t.below(13),
+    };
     let mut trace: Vec<&'static str> = Vec::new();
     for step in 1..=len {
-        let op = t.below(N_OPS);
+        let op = match forced {
+            // the prefix keeps the size (no resize), so the forced op runs at size n0
+            Some((_, _, op, _)) if step == len => op,
+            Some(_) => {
+                let o = t.below(N_OPS);
+                if o == 8 { 3 } else { o }
+            }
+            None => t.below(N_OPS),
+        };
         trace.push(OP_NAMES[op]);
         cx.label(OP_NAMES[op]);
-        if op == 8 {
-            let target = 2 + t.below(3);
-            st = resize(st, target);
-        } else {
-            match &mut st {
-                St::M2(r, c, m) => step2(op, t, cx, &mut fr, r, c, m)?,
-                St::M3(r, c, m) => step3(op, t, cx, &mut fr, r, c, m)?,
-                St::M4(r, c, m) => step4(op, t, cx, &mut fr, r, c, m)?,
-            }
-        }
+        let forced_step = forced.is_some() && step == len;
+        st = if forced_step { one_step(op, true, &mut ftape, cx, &mut fr, st)? } else { one_step(op, false, t, cx, &mut fr, st)? };
         agree(cx, &st, OP_NAMES[op], step)?;
     }
     cx.set_nontrivial(len >= 2);
@@ -629,6 +761,71 @@ pub fn programs(t: &mut Tape, cx: &mut Cx) -> CaseResult {
     }
 }
 
+/// Programs over the big element domains (the matrix crosses 1 KiB, one page, 64 KiB).
+pub fn programs_big(t: &mut Tape, cx: &mut Cx) -> CaseResult {
+    match t.below(8) {
+        0 => run::<E72>(t, cx),
+        1 => run::<E264>(t, cx),
+        2 => run::<E520>(t, cx),
+        3 => run::<E1040>(t, cx),
+        4 => run::<E4160>(t, cx),
+        5 => run::<EN520>(t, cx),
+        _ => run::<ED1048>(t, cx),
+    }
+}
+
+pub const N_DOMAINS: usize = 15;
+const SWEEP_VARIANTS: u64 = 12;
+/// operation x start size x element domain x variant
+pub fn sweep_total() -> u64 {
+    N_OPS as u64 * 3 * N_DOMAINS as u64 * SWEEP_VARIANTS
+}
+
+/// Exhaustive over element domain x matrix size x operation x 12 variants (a prefix of 0, 1 or 2 generated steps
+/// x the four-way first choice of the operation: which of the four from_* constructors, which of the four
+/// Copy-only operations, which out-of-range index regime, which resize target), so every combination is executed
+/// in every tier, whatever the seed.
+pub fn sweep(idx: u64, cx: &mut Cx) -> CaseResult {
+    let variant = idx % SWEEP_VARIANTS;
+    let op = ((idx / SWEEP_VARIANTS) % N_OPS as u64) as usize;
+    let n0 = 2 + ((idx / SWEEP_VARIANTS / N_OPS as u64) % 3) as usize;
+    let dom = (idx / SWEEP_VARIANTS / N_OPS as u64 / 3) as usize;
+    // the arguments of the steps come from a tape that is a pure function of the index
+    let mut bytes = [0u8; 64];
+    let mut z = mix(idx ^ 0x5EE9);
+    for b in bytes.iter_mut() {
+        z = mix(z);
+        *b = (z >> 24) as u8;
+    }
+    let mut tape = Tape::new(&bytes);
+    let t = &mut tape;
+    let forced = Some((n0, (variant / 4) as usize, op, (variant % 4) as usize));
+    cx.label(match n0 {
+        2 => "start size 2",
+        3 => "start size 3",
+        _ => "start size 4",
+    });
+    let res = match dom {
+        0 => run_with::<ES>(t, cx, forced),
+        1 => run_with::<EB>(t, cx, forced),
+        2 => run_with::<ER>(t, cx, forced),
+        3 => run_with::<EV>(t, cx, forced),
+        4 => run_with::<EN>(t, cx, forced),
+        5 => run_with::<E2>(t, cx, forced),
+        6 => run_with::<E16>(t, cx, forced),
+        7 => run_with::<E32>(t, cx, forced),
+        8 => run_with::<E72>(t, cx, forced),
+        9 => run_with::<E264>(t, cx, forced),
+        10 => run_with::<E520>(t, cx, forced),
+        11 => run_with::<E1040>(t, cx, forced),
+        12 => run_with::<E4160>(t, cx, forced),
+        13 => run_with::<EN520>(t, cx, forced),
+        _ => run_with::<ED1048>(t, cx, forced),
+    };
+    cx.nontrivial();
+    res
+}
+
 /// The domain table in the module docs is what the instantiations really look like.
 pub fn domain_facts(_idx: u64, cx: &mut Cx) -> CaseResult {
     use std::mem::{align_of, needs_drop, size_of};
@@ -636,6 +833,13 @@ pub fn domain_facts(_idx: u64, cx: &mut Cx) -> CaseResult {
     check!(cx, !needs_drop::<EN>() && !needs_drop::<E2>() && !needs_drop::<E16>() && !needs_drop::<E32>() && !needs_drop::<Sym>(), "the plain domains have none");
     check_eq!(cx, (size_of::<ES>(), size_of::<EB>(), size_of::<E2>(), size_of::<E16>(), size_of::<E32>(), size_of::<EN>()), (24, 8, 2, 16, 32, 8), "element sizes");
     check_eq!(cx, (align_of::<E2>(), align_of::<E16>(), align_of::<E32>()), (2, 16, 8), "element alignments");
+    check_eq!(cx, (size_of::<E72>(), size_of::<E264>(), size_of::<E520>(), size_of::<E1040>(), size_of::<E4160>(), size_of::<EN520>(), size_of::<ED1048>()), (72, 264, 520, 1040, 4160, 520, 1048), "big element sizes");
+    check!(cx, needs_drop::<ED1048>() && !needs_drop::<EN520>() && !needs_drop::<E4160>(), "drop glue of the big domains");
+    // every threshold is crossed by some matrix of every size
+    check!(cx, size_of::<rm::Mat2<E264>>() > 1024 && size_of::<rm::Mat3<E264>>() > 1024 && size_of::<rm::Mat4<E72>>() > 1024, "> 1 KiB");
+    check!(cx, size_of::<rm::Mat2<E1040>>() > 4096 && size_of::<rm::Mat3<E520>>() > 4096 && size_of::<rm::Mat4<E264>>() > 4096, "> one page");
+    check!(cx, size_of::<cm::Mat2<E4160>>() > 16384 && size_of::<cm::Mat3<E4160>>() > 32768 && size_of::<cm::Mat4<E4160>>() > 65536, "> 16 / 32 / 64 KiB");
+    check!(cx, size_of::<cm::Mat2<ED1048>>() > 4096 && size_of::<cm::Mat3<EN520>>() > 4096, "non-Copy domains cross the page too");
     cx.nontrivial();
     Ok(())
 }
